@@ -246,7 +246,7 @@ type c17Seen struct {
 
 func (s *c17Seen) noteSNI(n string) {
 	s.mu.Lock()
-	if !s.sniSet {
+	if !s.sniSet || s.sni == "" {
 		s.sni, s.sniSet = n, true
 	}
 	s.mu.Unlock()
